@@ -123,10 +123,10 @@ func closedScenario(r *vf.Run, n int, cap *dbgCapture) {
 		x.cur = v
 		logf("application sets %s to %s", x.Key, showVal(v))
 		for _, i := range live {
-			m, err := conns[i].Do("GET", fenceTarget, "", nil)
+			m, err := conns[i].Do("GET", f.fence, "", nil)
 			r.Count("fences", 1)
-			if err != nil || m.Status != 200 {
-				fail(fmt.Sprintf("fence failed: %v", err))
+			if err != nil || m.Status/100 != 2 {
+				fail(fmt.Sprintf("fence failed: %v %+v", err, m))
 				return "", false
 			}
 			evs := conns[i].TakeEvents()
@@ -135,20 +135,29 @@ func closedScenario(r *vf.Run, n int, cap *dbgCapture) {
 			if i == victim && !victimSubscribed {
 				want = 0
 			}
-			ok := len(evs) == want
+			sig := ""
+			var raws []string
 			for _, em := range evs {
 				e := parseEvent(em)
-				if e.Shape != "" || e.AID != x.AID || e.IID != x.IID || !sameJSON(e.Val, v) {
-					ok = false
+				raws = append(raws, e.Raw)
+				switch {
+				case e.Shape != "" || e.AID != x.AID || e.IID != x.IID:
+					sig = "event:wrong-shape"
+				case !sameJSON(e.Val, v):
+					sig = "event:wrong-value"
 				}
 			}
-			if !ok {
-				sig := "event:missing"
-				if len(evs) > want {
-					sig = "event:duplicate"
-				}
+			switch {
+			case len(evs) < want:
+				sig = "event:missing"
+			case len(evs) > want && want == 0:
+				sig = "event:to-never-subscribed"
+			case len(evs) > want:
+				sig = "event:duplicate"
+			}
+			if sig != "" {
 				r.Violation(sig, fmt.Sprintf("closed-connection scenario: connection c%d received %d EVENTs for one change of %s, expected %d with value %s", i, len(evs), x.Key, want, showVal(v)),
-					map[string]interface{}{"scenario": n, "history": hist})
+					map[string]interface{}{"scenario": n, "history": hist, "messages": raws})
 			} else {
 				r.Count("events_matched", len(evs))
 			}
@@ -205,7 +214,7 @@ func closedScenario(r *vf.Run, n int, cap *dbgCapture) {
 	const attempts = 3
 	for a := 0; a < attempts; a++ {
 		for k := 0; k < 50; k++ {
-			if _, err := conns[live[k%len(live)]].Do("GET", fenceTarget, "", nil); err != nil {
+			if _, err := conns[live[k%len(live)]].Do("GET", f.fence, "", nil); err != nil {
 				fail("round trip failed: " + err.Error())
 				return
 			}
